@@ -1009,6 +1009,11 @@ func (ex *Exec) evalElt(st *State, el ast.Expr, t types.Type) *Val {
 
 func (ex *Exec) constArray(def *Term, es *Sort) *Term {
 	s := arraySort(SInt, es)
+	if hasUnintZero(def) {
+		// cvc5 accepts only values under (as const ..); the zero of an uninterpreted sort is a constant symbol, so the
+		// all-zero array of such a sort is itself an unconstrained constant symbol (sound weakening: its elements are unknown)
+		return cnst("zeroarr_"+mangle(s.String()), s)
+	}
 	return &Term{Op: "(as const " + s.String() + ")", Args: []*Term{def}, S: s}
 }
 
@@ -2071,4 +2076,19 @@ func (ex *Exec) execRange(st *State, s *ast.RangeStmt) *Flow {
 	out := &Flow{}
 	out.normal = ex.merge(append([]*State{exitSt}, f.breaks...))
 	return out
+}
+
+func hasUnintZero(t *Term) bool {
+	if t == nil {
+		return false
+	}
+	if len(t.Args) == 0 && strings.HasPrefix(t.Op, "zero_") {
+		return true
+	}
+	for _, a := range t.Args {
+		if hasUnintZero(a) {
+			return true
+		}
+	}
+	return false
 }
